@@ -23,8 +23,8 @@ DESIGN_REF = "DESIGN.md section 5 (C07)"
 RULE = (
     "Exhaustive layer: all plane binary shapes and leaf assignments (object<=4 x species<=4 leaves quick, 5x5 thorough); per input one "
     "enumeration of the transfer-free valid mappings, re-priced for dup, floss in {0..5}, spe=0.  Checked: reconcile_lca maps every internal "
-    "node to the parent-chain LCA of the species of its leaves, is valid, its package cost == recount == minimum for all 36 pairs, and for "
-    "floss>0 it is the only optimal mapping.  Random layer: inputs <=5/5 (same oracle) and <=10/8 leaves (reconcile_thl with hgt=inf must "
+    "node to the parent-chain LCA of the species of its leaves (with each of the 36 cost pairs set in place on the same input object; again after one leaf was moved to another species in place, and after it was moved back), is valid, its package cost == recount == minimum for all 36 pairs, and for "
+    "floss>0 it is the only optimal mapping.  A fifth (exhaustive) / quarter (random) of the named cases give ancestral objects names of the form <species leaf>_<n> (either letter case) and leave the leaf assignment to be inferred from the names.  Random layer: inputs <=5/5 (same oracle) and <=10/8 leaves (reconcile_thl with hgt=inf must "
     "cost the same as reconcile_lca, 3 random cost pairs).  Ancestral nodes of both trees are unnamed in a third (exhaustive) / half (random) of the cases and results are read by clades.  Non-trivial: the LCA reconciliation has >=1 duplication and >=1 loss; "
     "distinct by SHA-1 of the input."
 )
@@ -47,6 +47,9 @@ def _case(draw):
         case["_kind"] = "thl"
         case["_pairs"] = [[draw(st.integers(0, 5)), draw(st.integers(0, 5))] for _ in range(3)]
     case["_unnamed"] = draw(st.booleans())
+    case["_move"] = draw(st.integers(0, 9))
+    if gen.chance(draw, 1, 4):
+        case["_leaflike"] = [[draw(st.integers(-1, 9)), draw(st.booleans())] for _ in range(4)]
     return case
 
 
@@ -68,6 +71,26 @@ def _strip_ancestor_names(case):
     return out
 
 
+def _leaflike_ancestors(case, picks):
+    """ancestral object nodes renamed "<species leaf>_<n>" (drawn species and letter case), leaf_object_species
+    omitted so that the package infers it from the names."""
+    from ..plain import parse_newick
+
+    out = {k: v for k, v in case.items() if k != "leaf_object_species"}
+    t = parse_newick(case["object_tree"])
+    sleaves = sorted(set(case["leaf_object_species"].values()))
+    k = 0
+    for n in t.preorder():
+        if not t.is_leaf(n):
+            which, lower = picks[k % len(picks)]
+            if which >= 0:
+                sp = sleaves[which % len(sleaves)]
+                t.name[n] = f"{sp.lower() if lower else sp}_{90 + k}"
+            k += 1
+    out["object_tree"] = t.to_newick()
+    return out
+
+
 def exhaustive(tier):
     n = 16 if tier == "quick" else 256
     return [(tier, i, n) for i in range(n)]
@@ -81,6 +104,9 @@ def run_job(job):
             case = dict(base)
             case["_kind"] = "oracle"
             case["_unnamed"] = k % 3 == 0
+            case["_move"] = k % 7
+            if k % 5 == 1:
+                case["_leaflike"] = [[k % 4 - 1, bool(k % 2)], [(k // 4) % 3, bool((k // 2) % 2)]]
             yield case
 
 
@@ -99,15 +125,50 @@ def check(case):
     base["costs"] = {"SPECIATION": 0, "DUPLICATION": 1, "HORIZONTAL_TRANSFER": INF, "FULL_LOSS": 1, "SEGMENTAL_LOSS": 1}
     inst = Instance(base)
     unnamed = bool(case.get("_unnamed"))
-    inp = pkg.make_input(_strip_ancestor_names(base) if unnamed else base, labelled=False, label=not unnamed)
+    leaflike = bool(case.get("_leaflike")) and not unnamed
+    given = _strip_ancestor_names(base) if unnamed else base
+    if leaflike:
+        # ancestral objects named like leaves of some species ("<species>_<n>", any letter case) and the leaf
+        # assignment left to be inferred from the names: only leaves take their species from their names
+        given = _leaflike_ancestors(base, case["_leaflike"])
+    inp = pkg.make_input(given, labelled=False, label=not unnamed)
     out = pkg.run_algo("lca", inp)[0]
     # read the result by clades (ancestors may be unnamed), then express it with the harness's names
     oname = {inst.O.clade(n): inst.O.name[n] for n in inst.O.nodes()}
     sname = {inst.S.clade(n): inst.S.name[n] for n in inst.S.nodes()}
-    m = {oname[frozenset(k.get_leaf_names())]: sname[frozenset(v.get_leaf_names())] for k, v in out.object_species.items()}
+
+    def by_clade(o):
+        return {oname[frozenset(k.get_leaf_names())]: sname[frozenset(v.get_leaf_names())] for k, v in o.object_species.items()}
+
+    m = by_clade(out)
     expected = inst.lca_mapping()
     if m != expected:
-        raise Violation("lca.mapping!=parent-chain-lca", observed=m, expected=expected)
+        raise Violation("lca.mapping!=parent-chain-lca", observed=m, expected=expected, extra={"given": given["object_tree"]})
+    # the mapping does not depend on the unit costs: the same input object with every (dup, loss) pair set in place
+    for dup, floss in (PAIRS if case["_kind"] == "oracle" else [tuple(p) for p in case["_pairs"]]):
+        _set_costs(inp, dup, floss)
+        m2 = by_clade(pkg.run_algo("lca", inp)[0])
+        if m2 != expected:
+            raise Violation("lca.mapping!=parent-chain-lca", observed=m2, expected=expected, extra={"dup": dup, "floss": floss})
+    # history: one leaf moved to another species in place on the same input object, solved again, moved back
+    sleaves = [x for x in inst.snodes if not inst.schildren[x]]
+    if len(sleaves) >= 2 and not leaflike:
+        onode = {n.name: n for n in inp.object_tree.traverse()}
+        snode = {n.name: n for n in inp.species_lca.tree.traverse()}
+        leaf = inst.oleaves[case.get("_move", 0) % len(inst.oleaves)]
+        target = sleaves[(sleaves.index(inst.los[leaf]) + 1 + case.get("_move", 0)) % len(sleaves)]
+        if target != inst.los[leaf]:
+            moved = dict(base, leaf_object_species=dict(base["leaf_object_species"], **{leaf: target}))
+            inst2 = Instance(moved)
+            inp.leaf_object_species[onode[leaf]] = snode[target]
+            got = by_clade(pkg.run_algo("lca", inp)[0])
+            if got != inst2.lca_mapping():
+                raise Violation("lca.after-leaf-moved-in-place", observed=got, expected=inst2.lca_mapping(), extra={"leaf": leaf, "to": target})
+            inp.leaf_object_species[onode[leaf]] = snode[inst.los[leaf]]
+            if by_clade(pkg.run_algo("lca", inp)[0]) != expected:
+                raise Violation("lca.after-leaf-moved-back", observed="differs", expected=expected, extra={"leaf": leaf, "to": target})
+    if sorted(k.name for k in inp.leaf_object_species) != sorted(inst.oleaves) and not unnamed:
+        raise Violation("lca.input-leaf-assignment-modified", observed=sorted(k.name for k in inp.leaf_object_species), expected=sorted(inst.oleaves))
     why = inst.mapping_valid(m)
     if why:
         raise Violation("lca.V-MAP." + why.split(":")[0], observed=m, expected="valid")
